@@ -270,6 +270,11 @@ def r3(ctx: Ctx) -> None:
                 parents[id(ch)] = node
         for node in ast.walk(mi.tree):
             is_set = isinstance(node, (ast.Set, ast.SetComp)) or (isinstance(node, ast.Call) and isinstance(node.func, ast.Name) and node.func.id in ("set", "frozenset") and node.func.id not in mi.imports)
+            if not is_set and isinstance(node, ast.BinOp) and isinstance(node.op, (ast.BitAnd, ast.BitOr, ast.BitXor, ast.Sub)):
+                # set algebra on dictionary views: `d.keys() & names` is a set
+                is_set = any(isinstance(x, ast.Call) and isinstance(x.func, ast.Attribute) and x.func.attr in ("keys", "items") and not x.args for x in (node.left, node.right))
+            if not is_set and isinstance(node, ast.Call) and isinstance(node.func, ast.Attribute) and node.func.attr in ("intersection", "union", "difference", "symmetric_difference") and not (isinstance(node.func.value, ast.Name) and node.func.value.id in ("np", "numpy")):
+                is_set = True
             if not is_set:
                 continue
             n += 1
